@@ -36,6 +36,8 @@ ASM_REJ = {
     "unaligned-absolute-label": "LDAC 0\nb\nLDAC b\n",
     "late-error": "LDAC 1\n" * 50 + "BR nowhere\n",
 }
+# accepted sources whose image is empty or holds no instruction (boundary of "the source was accepted")
+ASM_ACC.update({"empty-file": "", "comment-only": "# nothing here\n", "blank-lines": "\n\n", "labels-only": "a\nPROC p\nFUNC f\n", "single-data-word": "DATA 5\n", "single-opr": "OPR SVC\n"})
 X_ACC = {
     "exit7": "proc main() is 0(7)",
     "hello_putval": rd(os.path.join(REPO, "tests/x/hello_putval.x")).decode(),
@@ -54,6 +56,35 @@ for _n in sorted(os.listdir(os.path.join(REPO, "tests/asm"))):
 for _n in sorted(os.listdir(os.path.join(REPO, "tests/x"))):
     if _n.endswith(".x") and b"proc main" in rd(os.path.join(REPO, "tests/x", _n)): X_ACC.setdefault("shipped:" + _n, rd(os.path.join(REPO, "tests/x", _n)).decode("latin1"))
 LISTING_OPT = {"hexasm": ["--instrs", "--tokens"], "xcmp": ["-S", "--tokens", "--tree"]}
+
+
+EMPTY_IMAGE_OK = ("empty-file", "comment-only", "blank-lines", "labels-only")
+
+
+def complete_binary(data):
+    """'' when the file is header + image + complete debug tables (string table, symbol table) with nothing missing or left over; else what is wrong"""
+    if len(data) < 4:
+        return "shorter than a header"
+    n = struct.unpack("<I", data[:4])[0]
+    p = 4 + 4 * n
+    if p > len(data):
+        return "image truncated"
+    if p == len(data):
+        return "no debug tables"
+    if p + 4 > len(data):
+        return "string count truncated"
+    ns = struct.unpack("<I", data[p:p + 4])[0]; p += 4
+    for _ in range(ns):
+        q = data.find(b"\0", p)
+        if q < 0:
+            return "string table truncated"
+        p = q + 1
+    if p + 4 > len(data):
+        return "symbol count truncated"
+    nsym = struct.unpack("<I", data[p:p + 4])[0]; p += 4
+    if p + 8 * nsym != len(data):
+        return "symbol table holds %d bytes for %d symbols" % (len(data) - p, nsym)
+    return ""
 
 
 def cases():
@@ -150,8 +181,9 @@ def exec_case(i, c):
                         v.append(("output-not-written", "file %s does not hold a binary" % target))
                     else:
                         n = struct.unpack("<I", data[:4])[0]
-                        if 4 + 4 * n > len(data) or n == 0:
-                            v.append(("output-malformed", "header says %d words, file has %d bytes" % (n, len(data))))
+                        wf = complete_binary(data)
+                        if 4 + 4 * n > len(data) or (n == 0 and not c.get("src", "") in EMPTY_IMAGE_OK) or wf:
+                            v.append(("output-malformed", "header says %d words, file has %d bytes%s" % (n, len(data), "; " + wf if wf else "")))
                     extra = [n for n in new if n != target]
                     if extra:
                         v.append(("stray-output-file", "unexpected new files %s (requested %s)" % (extra, target)))
